@@ -56,10 +56,24 @@ impl LspProject {
                     .collect());
             }
 
+            // The conversion gives each token its absolute line and column; the protocol
+            // wants each position relative to the previous token.
+            let mut previous_line = 0;
+            let mut previous_start = 0;
             return Ok(result
                 .0
                 .into_iter()
                 .filter_map(|tok| LspTokenType(tok).into())
+                .map(|mut token: SemanticToken| {
+                    let (line, start) = (token.delta_line, token.delta_start);
+                    token.delta_line = line - previous_line;
+                    if token.delta_line == 0 {
+                        token.delta_start = start - previous_start;
+                    }
+                    previous_line = line;
+                    previous_start = start;
+                    token
+                })
                 .collect());
         } else {
             error!("URL must be convertible to a file path {}", url);
@@ -251,7 +265,7 @@ impl From<LspTokenType> for Option<SemanticToken> {
         token_type.map(|token_type| SemanticToken {
             delta_line: val.0.line as u32,
             delta_start: val.0.col as u32,
-            length: val.0.text.len() as u32,
+            length: val.0.text.encode_utf16().count() as u32,
             token_type,
             token_modifiers_bitset: 0,
         })
